@@ -302,11 +302,17 @@ func PlansFor(info vrt.ScenarioInfo, thorough bool) []Plan {
 	if info.Threads >= 3 {
 		b.Shards = 8
 	}
-	out := []Plan{b}
+	var out []Plan
+	if !info.NoThoroughBounded || info.NoThoroughComplete {
+		out = append(out, b)
+	}
 	if !info.NoThoroughComplete {
 		c := Plan{Info: info, Shards: 2, Complete: true}
 		if info.Threads >= 3 {
 			c.Shards = 8
+		}
+		if info.NoThoroughBounded {
+			c.Shards = 1 // small scenarios: sharding would only repeat the first levels
 		}
 		out = append(out, c)
 	}
